@@ -217,14 +217,12 @@ func init() {
 
 	// math
 	m1 := func(f func(float64) float64, name string) extFn {
+		op := map[string]Op{"Ceil": OpFCeil, "Floor": OpFFloor, "Round": OpFRound}[name]
 		return func(in *Interp, fr *frame, args []value) value {
-			t := args[0].(*Term)
-			if !t.IsConst() {
-				panic(unsupported{"math." + name + " of symbolic value"})
-			}
-			return in.tb.Float(f(t.FloatConstF64()))
+			return in.tb.FRoundOp(op, args[0].(*Term))
 		}
 	}
+	externals["math.Round"] = m1(math.Round, "Round")
 	externals["math.Ceil"] = m1(math.Ceil, "Ceil")
 	externals["math.Floor"] = m1(math.Floor, "Floor")
 	externals["math.archCeil"] = m1(math.Ceil, "Ceil")
